@@ -68,6 +68,8 @@ def cookie_cases(rng, tier):
         ops.append('op cookie %d g %d' % (ln, rng.randrange(256)))
     for bit in range(0, 320, 8 if tier == 'thorough' else 24):
         ops.append('op cookie 40 f %d' % (bit + rng.randrange(8)))
+    for bit in (63, 62, 56, 55, 7, 0, 64, 319):        # the sign bit of the time stamp: a time far in the past, no overflow in the age test
+        ops.append('op cookie 40 f %d' % bit)
     for age in range(0, 10):
         ops.append('op cookie 40 o %d' % age)
         ops.append('op cookie %d o %d' % (rng.choice([8, 24, 39, 41]), age))
